@@ -20,7 +20,8 @@
     reproduces tables dumped from the real code ([C14_view_is_real_dump]).  Proved, for every
     document of every world reachable by any history that still has a document element:
     - the table satisfies [DocInv] (tree + keys non-zero and strictly increasing along the table),
-      [SpecShape], and -- without a document type -- [ParentsOk]: the hypotheses of the C07 / C05
+      [SpecShape] (incl. [sh_order]: the table is in the document order of its own tree), and --
+      without a document type -- [ParentsOk] and [NamesOk]: ALL hypotheses of the C07 / C05
       theorems ([C14_bridge_reachable]); the condition on the document element is necessary
       ([C14_bridge_needs_document_element]: [DocInv] asks the root for an element child);
     - every node-set any expression without the namespace axis returns on the edited document is
@@ -32,11 +33,16 @@
       value does not read the order keys, so two stores whose tables are equal up to ids, keys and
       parent pointers -- an edited document and the fresh parse of its serialisation -- give the
       same rows in the same order ([C14_query_depends_on_tree_only_partial]).
-    NOT proved here (hypotheses of the last theorem): that a fresh parse of the serialisation
-    yields the same tree (C15 / C04: [same_tree] of the two tables is assumed), that the dom's
-    expanded names are those of Namespaces in XML ([NamesOk], C10; decidable), and the rest of C05
-    (predicates, the other axes, functions).  Those stay tested by the [Q] operations of
-    checks/C14.py (queries on the edited document against a re-parse, as pre-order ranks). *)
+    NOT proved here: that a fresh parse of the serialisation yields the same tree (C15 / C04:
+    [same_tree] of the two tables is a hypothesis of the last theorem; it fails exactly where C15 has
+    its findings, e.g. a text node without characters, [C14_example_empty_text_DD3]), and the
+    rest of C05 (predicates, the other axes, functions: whatever refinement theorem C05 gets
+    transfers by [C14_refined_nodesets_depend_on_tree_only]).  Those stay tested by the [Q]
+    operations of checks/C14.py (queries on the edited document against a re-parse, as pre-order
+    ranks).  Trusted: that [xdoc_of_store] is the table the harness would dump for the real
+    document -- its ingredients ([parent_node], [child_view], [key], [owner_element], attribute
+    lists) are tied to the real dom by the `dom` correspondence of C12 / C14 on every run; the walk,
+    the in-scope namespaces and the names by the real dumps of [C14_view_is_real_dump]. *)
 From Coq Require Import List NArith Bool Sorting.Sorted.
 From XmlRs Require Import Base.CPred.
 From XmlRs Require Import Model.XPathAst Model.XDoc Model.XPathEval Spec.XPath10
@@ -44,8 +50,8 @@ From XmlRs Require Import Model.XPathAst Model.XDoc Model.XPathEval Spec.XPath10
   Proofs.XPathTreeOnly Proofs.XPathExamples.
 From XmlRs Require Import Model.Store Model.StoreCheck Model.StoreView Model.DomOps
   Proofs.DomTree Proofs.DomOpsInv Proofs.DomOrder Proofs.DomOrderInv Proofs.DomCheck Proofs.DomExample Proofs.DomC14
-  Proofs.StoreViewBase Proofs.StoreViewWalk Proofs.StoreXDoc Proofs.StoreXDocShape Proofs.StoreXDocReach
-  Proofs.StoreXDocExample.
+  Proofs.StoreViewBase Proofs.StoreViewWalk Proofs.StoreXDoc Proofs.StoreXDocShape Proofs.StoreXDocNames
+  Proofs.StoreXDocReach Proofs.StoreXDocExample Proofs.StoreXDocDumps.
 Import ListNotations.
 Open Scope N_scope.
 
@@ -94,10 +100,12 @@ Theorem C14_bridge_shape :
     TreeInv s -> doc_element s <> None -> SpecShape (xdoc_of_store F merged s).
 Proof. exact bridge_shape. Qed.
 
-(** of [NamesOk] (C10) only the clause on elements and attributes remains a hypothesis *)
+(** the names the view reports (the dom's [as_expanded_name]: prefix looked up among the in-scope
+    namespace nodes) are those the specification computes from the namespace rows (C10's
+    statement, on the view) *)
 Theorem C14_bridge_names :
   forall (F : sfacts) (merged : bool) (s : store),
-    ElemNamesOk (xdoc_of_store F merged s) -> NamesOk (xdoc_of_store F merged s).
+    TreeInv s -> doc_element s <> None -> doc_decl s = None -> NamesOk (xdoc_of_store F merged s).
 Proof. exact bridge_names. Qed.
 
 Theorem C14_bridge_parents :
@@ -117,7 +125,7 @@ Theorem C14_bridge_reachable :
   forall (F : sfacts) (merged : bool) (init : world) (ops : list op) (k : N) (s : store),
     WGood init -> doc_at (run init ops) k = Some s -> doc_element s <> None ->
     DocInv (xdoc_of_store F merged s) /\ SpecShape (xdoc_of_store F merged s) /\
-    (doc_decl s = None -> ParentsOk (xdoc_of_store F merged s)).
+    (doc_decl s = None -> ParentsOk (xdoc_of_store F merged s) /\ NamesOk (xdoc_of_store F merged s)).
 Proof. exact bridge_reachable. Qed.
 
 (** C07 on the edited document: whatever axes, unions, filters and predicates an expression
@@ -159,7 +167,7 @@ Proof. exact rows_sub_preorder. Qed.
 Theorem C14_edited_path_query_refines_partial :
   forall (F : sfacts) (merged : bool) (init : world) (ops : list op) (k : N) (s : store),
     WGood init -> doc_at (run init ops) k = Some s ->
-    doc_element s <> None -> doc_decl s = None -> NamesOk (xdoc_of_store F merged s) ->
+    doc_element s <> None -> doc_decl s = None ->
     forall (ns : list (option str * str)), ns_lookup ns None = None ->
     forall (p : path_expr) (c : ctx) (pos size : N), c_ns c = ns -> simple_path ns p ->
     exists lm : list node,
@@ -178,18 +186,17 @@ Proof. exact spec_query_tree_only. Qed.
       forall s2, s2 = the store a parse of [show_doc s1] builds ->
       forall e c, value of [query (table of s1) e c] = value of [query (table of s2) e c]
       (node-sets compared as lists of table positions).
-    Proved part: for the fragment of C05 that is proved, with the two facts that belong to other
-    properties as hypotheses -- the fresh parse yields the same tree ([same_tree] of the tables:
+    Proved part: for the fragment of C05 that is proved, with the fact that belongs to other
+    properties as hypothesis -- the fresh parse yields the same tree ([same_tree] of the tables:
     C15 / C04) and satisfies the invariants ([TreeInv], [OrderInv]: what [WGood] of an initial
-    world gives), the dom's names are those of Namespaces in XML ([NamesOk]: C10) -- and for
-    documents with a document element and without a document type: the edited document and the
-    fresh parse give the same rows in the same order, which are the rows XPath 1.0 prescribes. *)
+    world gives) -- and for documents with a document element and without a document type: the
+    edited document and the fresh parse give the same rows in the same order, which are the rows
+    XPath 1.0 prescribes. *)
 Theorem C14_query_depends_on_tree_only_partial :
   forall (F1 F2 : sfacts) (merged : bool) (init : world) (ops : list op) (k : N) (s1 s2 : store),
     WGood init -> doc_at (run init ops) k = Some s1 ->
     TreeInv s2 -> OrderInv s2 ->
     doc_element s1 <> None -> doc_decl s1 = None -> doc_element s2 <> None -> doc_decl s2 = None ->
-    NamesOk (xdoc_of_store F1 merged s1) ->
     same_tree (xdoc_of_store F1 merged s1) (xdoc_of_store F2 merged s2) ->
     forall (ns : list (option str * str)), ns_lookup ns None = None ->
     forall (p : path_expr) (c1 c2 : ctx), c_ns c1 = ns -> c_ns c2 = ns -> simple_path ns p ->
@@ -198,6 +205,15 @@ Theorem C14_query_depends_on_tree_only_partial :
       query (xdoc_of_store F2 merged s2) (path_query p) c2 = (XDoc.Ok (XNodes l), c2) /\
       spec_query (xdoc_of_store F1 merged s1) ns 0 0 (path_query p) = Some (SNodes (map Row l)).
 Proof. exact query_depends_on_tree_only. Qed.
+
+(** any refinement theorem transfers: the specification's node-set of an expression on two tables
+    showing the same tree is the same list of rows *)
+Theorem C14_refined_nodesets_depend_on_tree_only :
+  forall (d1 d2 : xdoc) (ns : bindings) (pos size : N) (e : expr) (l1 l2 : list node),
+    same_tree d1 d2 ->
+    spec_query d1 ns pos size e = Some (SNodes (map Row l1)) ->
+    spec_query d2 ns pos size e = Some (SNodes (map Row l2)) -> l1 = l2.
+Proof. exact same_tree_same_nodeset. Qed.
 
 (** the same for two arbitrary tables *)
 Theorem C14_same_tree_same_paths_partial :
@@ -214,16 +230,22 @@ Proof. exact same_tree_same_paths. Qed.
 
 (** ** the view is the table of the real code; the hypotheses are satisfiable *)
 
-(** [path_doc], [pi_doc], [ns_doc], [ex_doc] of Proofs/XPathExamples.v are printed from the harness
-    dump of the real dom; the view of the corresponding stores is that table, field by field *)
+(** [path_doc], [pi_doc], [ns_doc], [ex_doc] of Proofs/XPathExamples.v and [rich_raw_doc],
+    [rich_merged_doc] of Proofs/StoreXDocDumps.v (document type, default / prefixed / undeclared
+    namespaces, comment, CDATA, character and entity references, processing instruction; both DOM
+    views) are printed from the harness dump of the real dom; the view of the corresponding stores
+    is that table, field by field *)
 Example C14_view_is_real_dump :
   xdoc_of_store (facts_of path_store) true path_store = path_doc /\
   xdoc_of_store (facts_of pi_store) true pi_store = pi_doc /\
   xdoc_of_store (facts_of ns_store) true ns_store = ns_doc /\
-  xdoc_of_store (facts_of ex_store') true ex_store' = ex_doc.
+  xdoc_of_store (facts_of ex_store') true ex_store' = ex_doc /\
+  xdoc_of_store rich_facts false rich_store = rich_raw_doc /\
+  xdoc_of_store rich_facts true rich_store = rich_merged_doc.
 Proof.
   split; [exact view_is_real_dump_path|]. split; [exact view_is_real_dump_pi|].
-  split; [exact view_is_real_dump_ns | exact view_is_real_dump_ex].
+  split; [exact view_is_real_dump_ns|]. split; [exact view_is_real_dump_ex|].
+  split; [exact view_is_real_dump_rich_raw | exact view_is_real_dump_rich_merged].
 Qed.
 
 (** [br_store]: <r><a x="1">t</a><b/></r> after a refused call, a move of the subtree of a under
@@ -233,8 +255,21 @@ Example C14_example_hypotheses :
   WGood ex_world /\ doc_at (run ex_world br_ops) 0 = Some br_store /\
   doc_element br_store <> None /\ doc_decl br_store = None /\
   TreeInv rp_store /\ OrderInv rp_store /\ doc_element rp_store <> None /\ doc_decl rp_store = None /\
-  NamesOk br_view /\ same_tree br_view rp_view.
+  same_tree br_view rp_view.
 Proof. exact br_hypotheses. Qed.
+
+(** where the hypotheses fail, on reachable states: without document element (C15-NOROOT) no
+    table satisfies [DocInv]; with a text node without characters (DD3) the fresh parse does not
+    show the same tree and //b/node() differs *)
+Example C14_example_no_document_element :
+  doc_element nr_store = None /\ ~ DocInv (xdoc_of_store (facts_of nr_store) true nr_store).
+Proof. exact nr_no_docinv. Qed.
+
+Example C14_example_empty_text_DD3 :
+  ~ same_tree et_view et_reparsed_view /\
+  fst (query et_view (path_query p_bnode) ctx_default) = XDoc.Ok (XNodes [9]) /\
+  fst (query et_reparsed_view (path_query p_bnode) ctx_default) = XDoc.Ok (XNodes []).
+Proof. destruct et_not_same_tree as [_ H]. exact H. Qed.
 
 Example C14_example_ids_and_keys :
   (preorder br_store, map (Store.key br_store) (preorder br_store)) = ([1;2;8;7;3;4;5;6], [1;2;3;4;5;6;7;8]) /\
@@ -269,6 +304,7 @@ Print Assumptions C14_view_rows_follow_walk.
 Print Assumptions C14_edited_path_query_refines_partial.
 Print Assumptions C14_spec_query_tree_only.
 Print Assumptions C14_query_depends_on_tree_only_partial.
+Print Assumptions C14_refined_nodesets_depend_on_tree_only.
 Print Assumptions C14_same_tree_same_paths_partial.
 Print Assumptions C14_view_is_real_dump.
 Print Assumptions C14_example_hypotheses.
